@@ -474,28 +474,48 @@ def load_corpus():
 
 
 def run_cases(chk, runs, name="C12"):
+    """every call into the implementation is guarded: an exception on a generated (legal) input is a concrete failing input"""
+    import traceback
+
     impls = []
     for cfg in runs:
         try:
             impls.append(run_impl(cfg))
         except Exception as e:
-            impls.append({"crash": f"{type(e).__name__}: {e}"})
+            impls.append({"crash": f"{type(e).__name__}: {e}", "traceback": traceback.format_exc()[-2500:]})
     exprs, spans = [], []
     for cfg, im in zip(runs, impls):
-        e = [] if im.get("crash") else model_exprs(cfg, im)
+        e = []
+        if not im.get("crash"):
+            try:
+                e = model_exprs(cfg, im)
+            except Exception as ex:      # the implementation returned something the decoder cannot handle
+                im["decode_error"] = f"{type(ex).__name__}: {ex}"
+                im["traceback"] = traceback.format_exc()[-2500:]
         spans.append((len(exprs), len(exprs) + len(e)))
         exprs += e
     vals = common.coq_eval_many(name, HEADER, exprs, shard=60, procs=4)
     results = []
     for cfg, im, (a, b) in zip(runs, impls, spans):
         if im.get("crash"):
-            results.append(([("oracle-crash", im["crash"])], []))
+            results.append(([("oracle-implementation-raised", "learn() / construction raised on a legal configuration: " + im["crash"])], []))
             continue
         try:
             orc = oracle(cfg, im)
         except Exception as e:
-            orc = [("oracle-crash", f"{type(e).__name__}: {e}")]
-        results.append((orc, compare_model(cfg, im, vals[a:b])))
+            im["traceback"] = traceback.format_exc()[-2500:]
+            orc = [("oracle-unexpected-value", f"the recorded run contains a value the oracle cannot interpret: {type(e).__name__}: {e}")]
+        if im.get("decode_error"):
+            orc = orc + [("oracle-unexpected-value", "the recorded run contains a value the model comparison cannot encode: " + im["decode_error"])]
+            results.append((orc, []))
+            continue
+        try:
+            mod = compare_model(cfg, im, vals[a:b])
+        except Exception as e:
+            im["traceback"] = traceback.format_exc()[-2500:]
+            mod = []
+            orc = orc + [("oracle-unexpected-value", f"comparison with the model failed on the recorded values: {type(e).__name__}: {e}")]
+        results.append((orc, mod))
     return impls, results
 
 
@@ -510,8 +530,16 @@ def main():
     runs = corpus + [gen_run(chk.rng, i) for i in range(n_r)]
     impls, results = run_cases(chk, runs)
     new = 0
-    for sig, msg in api_guards():
-        chk.violation(sig, msg, {"fixed_input": "harness/c12.py api_guards()"}, found_input=True)
+    try:
+        guards = api_guards()
+    except Exception as e:
+        import traceback
+
+        guards = [("oracle-implementation-raised", f"DQN(train_freq=(2, 'step')).learn(3) or its construction raised {type(e).__name__}: {e}")]
+        chk.notes["api_guards_traceback"] = traceback.format_exc()[-2500:]
+    for sig, msg in guards:
+        chk.violation(sig, msg, {"fixed_input": "harness/c12.py api_guards(): DQN on a 2-d Box env with train_freq (1,'epoch') / (1.5,'step') / (2,'step')",
+                                 "traceback": chk.notes.get("api_guards_traceback")}, found_input=True)
         new += 1
     hist = {"algo": {}, "n_envs": {}, "learn_calls": 0, "calls_without_reset": 0, "calls_stopped_by_callback": 0, "total_not_multiple_of_rollout": 0,
             "train_calls": 0, "optimizer_steps": 0, "schedule_args": 0, "episodic_train_freq": 0, "gradient_steps": {}}
@@ -536,7 +564,7 @@ def main():
                 if nm and len(rc["trains"]) >= 1:
                     distinct.add((cfg["algo"], cfg["n_envs"], R, call["total"], call["reset"], cfg.get("gradient_steps"), cfg.get("learning_starts")))
         if orc and new < 3:
-            chk.violation(orc[0][0], "; ".join(m for _, m in orc[:3]), {"run": cfg, "problems": orc[:10], "model_disagreements": mod[:5]}, found_input=True)
+            chk.violation(orc[0][0], "; ".join(m for _, m in orc[:3]), {"run": cfg, "problems": orc[:10], "model_disagreements": mod[:5], "traceback": im.get("traceback")}, found_input=True)
             new += 1
         elif mod and new < 3:
             chk.violation("model-correspondence-" + mod[0][0], "; ".join(m for _, m in mod[:3]),
